@@ -219,6 +219,13 @@ def finish(prop, a, dsl, reports, t0, seed, extra):
     lib_used = set()
     inlined = set()
     sources = {}
+    for key in reports:
+        c = dsl.REGISTRY.get(key)
+        if c is not None and c.uses and c.uses != 'all':
+            for u in c.uses:
+                cu = dsl.REGISTRY.get(u)
+                if cu is not None and cu.trusted:
+                    lib_used.add('TRUSTED contract %s (assumed at its call sites in %s, never verified): %s' % (u, key, ' '.join(cu.doc.split())[:400]))
     for key, rep in reports.items():
         solver_time += rep['solver_time']
         lib_used |= set(rep['lib_used'])
@@ -283,6 +290,14 @@ def finish(prop, a, dsl, reports, t0, seed, extra):
                 lemma_replay = src is not None
             except Exception as e:
                 why = 'lemma replay construction failed: %s' % e
+        if contract is not None and callable(getattr(contract, 'replay', None)):
+            # contract-specific replay script (symbolic heaps that the generic replay cannot rebuild): exit 1 = the real code violates
+            try:
+                s2 = contract.replay(label, c.get('model') or {})
+                if s2 is not None:
+                    src, lemma_replay = s2, True
+            except Exception as e:
+                why = 'contract replay construction failed: %s' % e
         path = write_replay(prop, label, c, contract, src, why)
         reproduced = None
         out = ''
